@@ -8,3 +8,10 @@ Definition crash_prop (c : Z * Z * Z * meta_write * Z * bool * bool * bool * boo
   opened && checkok && negb hung && finaleq && ((rec =? k) || (rec =? k + 1)).
 Definition pf_crash := Eval vm_compute in failing crash_prop cases_crash.
 Print pf_crash.
+
+(* restart right after the stop: while the old process still holds the file lock
+   for less than the node's lock timeout (5 s), OpenDB waits and opens *)
+Definition lock_prop (c : Z * bool * Z) : bool :=
+  let '(held, opened, waited) := c in (5000 <=? held) || (opened && (waited <? 5000 + held)).
+Definition pf_lock := Eval vm_compute in failing lock_prop cases_lock.
+Print pf_lock.
